@@ -102,6 +102,7 @@ def st_grid_case(draw, max_atoms=4, lmax_lo=1, dens=None, max_level=3):
         "lmax": draw(st.one_of(st.just(10), st.integers(lmax_lo, 14), st.integers(lmax_lo, 14), st.integers(15, 22))),
         "alignment": draw(st.sampled_from([0, 1, 2, 3, 7, 8, 8, 16, 32, 64, 100])),
         "sort_grids": draw(st.booleans()),
+        "ecp": draw(st.sampled_from(range(4))) == 0,
         "dens": None,
         "rebuild": None,
     }
@@ -127,6 +128,14 @@ def build_mol(case):
     mol.basis = "sto-3g"
     mol.verbose = 0
     nelec = sum(gto.charge(a[0]) for a in atoms)
+    if case.get("ecp"):
+        # effective core potentials on the third-row atoms (PySCF sizes an atom's grid by the element, not by the
+        # number of electrons left after the core is removed)
+        heavy = sorted(set(a[0] for a in atoms if gto.charge(a[0]) > 10))
+        if heavy:
+            mol.ecp = {sy: "lanl2dz" for sy in heavy}
+            mol.basis = {sy: ("lanl2dz" if sy in heavy else "sto-3g") for sy in set(a[0] for a in atoms)}
+            nelec -= 10 * sum(1 for a in atoms if gto.charge(a[0]) > 10)
     mol.spin = nelec % 2
     mol.build()
     return mol
@@ -561,7 +570,7 @@ def run_grid_case(case, ctx, sub):
 RULE = ("molecules of 1-4 atoms from H..Ar (element pool with repeats), tetrahedral template x drawn scale, jitter and "
         "rigid motion; level 0-3 or atom_grid as tuple / list / dict over a subset of the elements (n_rad 1-60, n_ang "
         "any Lebedev size 6..590; half of the dicts carry PySCF's 'default' entry); prune in {nwchem, sg1, treutler, None}; "
-        "5 radial schemes; becke_scheme original/stratmann, radii_adjust treutler/becke/None, BRAGG/COVALENT radii (defaults half of the time); atoms optionally labelled (H1, H2) with label-keyed atom_grid; plain CiderGrids(mol, lmax).build() with lmax 1-22 (10 a quarter of the time, 15-22 a quarter: above 16 only the 434+ point shells support every degree); alignment in {0,1,2,3,7,8,16,32,64,100}; sort_grids T/F. "
+        "5 radial schemes; becke_scheme original/stratmann, radii_adjust treutler/becke/None, BRAGG/COVALENT radii (defaults half of the time); atoms optionally labelled (H1, H2) with label-keyed atom_grid; lanl2dz effective core potentials on Na-Ar in a quarter of the cases; plain CiderGrids(mol, lmax).build() with lmax 1-22 (10 a quarter of the time, 15-22 a quarter: above 16 only the 434+ point shells support every degree); alignment in {0,1,2,3,7,8,16,32,64,100}; sort_grids T/F. "
         "Oracles: bit-for-bit multiset equality of non-zero-weight (x,y,z,w) and of the whole arrays with "
         "pyscf.dft.gen_grid.Grids of the same settings; idx_map injective into range(all_weights.size), "
         "all_weights[idx_map] == weights[:n] and atom-ordered coordinates rebuilt from rad_arr x PySCF Lebedev "
